@@ -36,7 +36,13 @@ class TRun:
             if o == "none":
                 return None
             if o == "raise":
-                raise RuntimeError("handler failed")
+                # exceptions of different shapes: with a message, without any argument, a failed assertion
+                k = len(run.started) % 3
+                if k == 0:
+                    raise RuntimeError("handler failed")
+                if k == 1:
+                    raise RuntimeError
+                assert False
             return app.generate_answer(msg, 2001)
         self.app = app = sim.app_mod.SimpleThreadingApplication(4, is_auth_application=True, max_threads=limit,
                                                                 request_handler=handler)
@@ -321,7 +327,7 @@ def check(run):
             for f in range(rng2.randrange(1, 4)):       # up to 3 consecutive faults
                 kind = rng2.choice(["close_after_request", "reset_mid_frame", "handler_none", "handler_raise", "close_with_queued",
                                     "half_frame_then_close", "dpr_then_close", "write_error", "write_error",
-                                    "two_broken_at_once", "handshake_stalled"])
+                                    "two_broken_at_once", "handshake_stalled", "twin_ids_lost"])
                 hist.append(kind)
                 hbh += 1
                 if kind == "close_after_request":
@@ -374,6 +380,22 @@ def check(run):
                                       what="a peer whose connection broke together with another one is not served when it returns")
                     t.remotes[c1b].close()
                     t.sim.run()
+                elif kind == "twin_ids_lost":
+                    # two peers each have a request in the hands of a (slow) handler, with the SAME hop-by-hop and
+                    # end-to-end identifiers; both connections are lost while the handlers run
+                    c1, _ = t.connect("cli1.example.net")
+                    hb2 = hbh + 5000
+                    t.outcome[hb2] = "slow:answer"
+                    t.release[hb2] = t.sim.vmodules["threading"].Event()
+                    for c in (c0, c1):
+                        t.remotes[c].feed(NS.build_message(dict(kind="req", hbh=hb2, e2e=hb2, host=t.host[c])))
+                    t.sim.run()
+                    for c in (c0, c1):
+                        t.remotes[c].close()
+                    t.sim.run()
+                    t.release[hb2].set()
+                    t.sim.run()
+                    t.sim.advance(1)
                 elif kind == "handshake_stalled":
                     # a newcomer sends half a CER and falls silent: the CER timer closes it, its workers must end
                     t.sim.script_random([1000 + 97 * len(t.remotes)])
@@ -414,7 +436,7 @@ def check(run):
                     t.remotes[c0].close()
                     t.sim.run()
                 if t.remotes[c0].closed_by_node or kind in ("close_after_request", "reset_mid_frame", "close_with_queued",
-                                                            "half_frame_then_close", "dpr_then_close", "two_broken_at_once"):
+                                                            "half_frame_then_close", "dpr_then_close", "two_broken_at_once", "twin_ids_lost"):
                     t.sim.advance(1)
                     c0, _ = t.connect("cli0.example.net")
             t.sim.advance(6)
